@@ -77,6 +77,7 @@ type gnet struct {
 	stabilised bool
 	log      []string
 	partition bool                             // before stabilisation honest<->honest links are (very) slow
+	slow      func(from, to int, msg *gpbft.GMessage) bool // finer-grained: which honest<->honest transmissions are slow
 	onSend    func(from int, msg *gpbft.GMessage) // adversary hook: sees every first transmission of an honest node
 }
 
@@ -153,7 +154,7 @@ func (g *gnet) send(from int, msg *gpbft.GMessage, first bool) {
 			continue
 		}
 		d := time.Duration(0)
-		if !g.stabilised && g.partition && to.idx != from && g.nodes[from].honest && to.honest {
+		if !g.stabilised && to.idx != from && g.nodes[from].honest && to.honest && (g.partition || (g.slow != nil && g.slow(from, to.idx, msg))) {
 			g.pool = append(g.pool, &pendingMsg{to: to.idx, msg: msg, from: from, ready: g.now.Add(100000 * time.Second)})
 			continue
 		}
